@@ -35,7 +35,9 @@ func drawC05(t *rapid.T) caseC05 {
 		n = rapid.IntRange(2, 3).Draw(t, "nstreams")
 	}
 	for i := 0; i < n; i++ {
-		c.Srcs = append(c.Srcs, gen.DrawSrc(t, c.Fmt, max, "lib", "lib", "ref", "ref", "liblzma"))
+		src := gen.DrawSrc(t, c.Fmt, max, "lib", "lib", "ref", "ref", "liblzma")
+		src.Big = false // every cut is decoded: keep the content small
+		c.Srcs = append(c.Srcs, src)
 		if n > 1 {
 			c.Pads = append(c.Pads, 4*rapid.IntRange(0, 3).Draw(t, "pad"))
 		}
